@@ -19,6 +19,8 @@ CONSTANTS Users,               \* user names the client may try
           GssHonoursCallback,  \* FALSE = pinned tree: both GSS branches hard-wire AUTH_SUCCESSFUL
           BlobOmits,           \* "" | "sid" | "user" | "service" | "alg" | "key": field left out of the signed blob
           KeepsResultAfterBadSig,  \* TRUE = a failed verify_ssh_sig does not reset result
+          EmptyListPromotesPartial,  \* TRUE = "partial" with an empty get_allowed_auths() list is sent as full success
+          ServiceRequestResets,   \* TRUE = accepting a (repeated) ssh-userauth SERVICE_REQUEST clears the pin and the failure counter
           PkOkCachesApproval,     \* TRUE = a signed request for the key just answered with PK_OK is not put to the application again
           RekeyResetsAuthState,   \* TRUE = a key re-exchange before authentication installs a fresh AuthHandler
           KeepsResultOnForeignLabel,  \* TRUE = a signature blob labelled with another algorithm than the request's keeps result
@@ -38,7 +40,10 @@ Toks       == {"more", "done", "error"}
 
 \* ------------------------------------------------------------------ client messages
 Blank == [k |-> "", user |-> "", service |-> "", method |-> "", cb |-> "fail", sig |-> "absent",
-          mic |-> "good", change |-> FALSE, mechs |-> 1, mech_ok |-> TRUE, tok |-> ""]
+          mic |-> "good", change |-> FALSE, mechs |-> 1, mech_ok |-> TRUE, tok |-> "", allowed |-> "usual"]
+\* allowed = what the application's get_allowed_auths(user) returns while this message is handled (it goes into the
+\* FAILURE / partial-success reply): "usual" = a list with the common methods, "without" = a non-empty list that lacks the
+\* method just tried, "empty" = nothing at all.  It is advice to the client and decides nothing.
 Rq(u, sv, m) == [Blank EXCEPT !.k = "request", !.user = u, !.service = sv, !.method = m]
 
 \* The service and then the user name are looked at before anything else in the request, and user names are
@@ -66,7 +71,17 @@ Continuations ==
   \cup {[Blank EXCEPT !.k = "gss_token", !.tok = t, !.cb = "ok"] : t \in Toks}
   \cup {[Blank EXCEPT !.k = "gss_mic", !.mic = mc, !.cb = c] : mc \in MicKinds, c \in Results}
   \cup {[Blank EXCEPT !.k = "rekey", !.tok = t] : t \in {"client", "server"}}     \* a complete key re-exchange, started by t
-Messages == (UNION {UserRequests(u, sv) : u \in Users, sv \in Services}) \cup Continuations
+  \* SSH_MSG_SERVICE_REQUEST sent again in the middle of the dialogue (paramiko's classic client does so before every
+  \* attempt): "ssh-userauth" is accepted again, any other service is refused
+  \cup {[Blank EXCEPT !.k = "service_request", !.service = sv] : sv \in {"ssh-userauth", "other"}}
+BaseMessages == (UNION {UserRequests(u, sv) : u \in Users, sv \in Services}) \cup Continuations
+\* the same attempts while the application offers an unusual list of methods that can continue: every way of getting a
+\* partial success (one valid proof per method), and one failing and one succeeding attempt
+OddList(q) == \/ q.cb = "partial" /\ q.user \in {"", Primary} /\ q.service \in {"", "ssh-connection"}
+                 /\ q.sig \in {"absent", "good"} /\ q.mic = "good" /\ q.k \in {"request", "info_response", "gss_mic"}
+              \/ q.k = "request" /\ q.method = "none" /\ q.user = Primary /\ q.service = "ssh-connection"
+                 /\ q.cb \in {"ok", "fail"}
+Messages == BaseMessages \cup {[q EXCEPT !.allowed = al] : q \in {x \in BaseMessages : OddList(x)}, al \in {"empty", "without"}}
 \* a small alphabet of attempts that do not end in success, to walk up to the failure cap
 CapMessages == LET u == Primary   v == CHOOSE x \in Users : x # u   sv == "ssh-connection" IN
   {[Rq(u, sv, "none") EXCEPT !.cb = "fail"], [Rq(u, sv, "password") EXCEPT !.cb = "partial"],
@@ -74,7 +89,7 @@ CapMessages == LET u == Primary   v == CHOOSE x \in Users : x # u   sv == "ssh-c
    [Rq(u, sv, "publickey") EXCEPT !.cb = "ok", !.sig = "corrupt"], [Rq(u, sv, "publickey") EXCEPT !.cb = "ok", !.sig = "absent"],
    [Rq(u, sv, "keyboard-interactive") EXCEPT !.cb = "query"], [Blank EXCEPT !.k = "info_response", !.cb = "fail"],
    [Rq(v, sv, "none") EXCEPT !.cb = "ok"], [Rq(u, sv, "none") EXCEPT !.cb = "ok"],
-   [Blank EXCEPT !.k = "rekey", !.tok = "client"]}
+   [Blank EXCEPT !.k = "rekey", !.tok = "client"], [Blank EXCEPT !.k = "service_request", !.service = "ssh-userauth"]}
 
 \* ------------------------------------------------------------------ symbolic signatures
 \* what the signature of a publickey request was made over, and by which key.  "K" is the key named in the
@@ -133,7 +148,7 @@ Init == /\ cfg \in {CfgOf(n) : n \in ConfigSel}
 \* ------------------------------------------------------------------ the server's step function
 \* control state handed from one handler to the next
 Ctl == [authUser |-> authUser, failCount |-> failCount, authenticated |-> authenticated, alive |-> alive,
-        mode |-> mode, expect |-> expect, offer |-> offer]
+        mode |-> mode, expect |-> expect, offer |-> offer, al |-> "usual"]      \* al: see Handle
 Ans(s, c, o) == [st |-> s, cbs |-> c, out |-> o]
 Quiet(s) == Ans(s, <<>>, <<>>)
 Die(s, c, o) == Ans([s EXCEPT !.alive = FALSE, !.authenticated = FALSE], c, o)   \* is_authenticated() = active /\ ...
@@ -141,8 +156,10 @@ Die(s, c, o) == Ans([s EXCEPT !.alive = FALSE, !.authenticated = FALSE], c, o)  
 \* _send_auth_result(username, method, result)  (then _disconnect_no_more_auth at the cap)
 ReplyOf(res) == CASE res = "ok" -> "SUCCESS" [] res = "partial" -> "PARTIAL" [] OTHER -> "FAILURE"
 Counts(res) == res = "fail" \/ (PartialCounts /\ res = "partial")
-SendResult(s, c, res) ==
-    LET fc == IF Counts(res) THEN s.failCount + 1 ELSE s.failCount
+\* the list of methods that can continue (s.al) is copied into the reply and changes nothing else
+SendResult(s, c, res0) ==
+    LET res == IF EmptyListPromotesPartial /\ res0 = "partial" /\ s.al = "empty" THEN "ok" ELSE res0
+        fc == IF Counts(res) THEN s.failCount + 1 ELSE s.failCount
         s1 == [s EXCEPT !.failCount = fc, !.authenticated = (s.authenticated \/ res = "ok")]
     IN  IF fc >= FailCap + CapOffset
           THEN Die(s1, c, <<ReplyOf(res), "DISCONNECT">>)
@@ -210,7 +227,12 @@ GssMic(s, q) ==
     ELSE SendResult(s1, <<Cb("gssapi-with-mic", s.authUser, q.cb)>>, IF GssHonoursCallback THEN q.cb ELSE "ok")
 
 \* Transport.run: _expected_packet, then dispatch through the current auth handler's table
-WireType(q) == CASE q.k = "request" -> 50 [] q.k = "gss_mic" -> 66 [] OTHER -> 61
+WireType(q) == CASE q.k = "request" -> 50 [] q.k = "gss_mic" -> 66 [] q.k = "service_request" -> 5 [] OTHER -> 61
+\* AuthHandler._parse_service_request: the authentication state (pin, counter, authenticated) is not touched
+ServiceRequest(s, q) ==
+    IF q.service # "ssh-userauth" THEN Die(s, <<>>, <<"DISCONNECT">>)        \* _disconnect_service_not_available
+    ELSE IF ServiceRequestResets THEN Ans([s EXCEPT !.authUser = "", !.failCount = 0], <<>>, <<"SERVICE_ACCEPT">>)
+    ELSE Ans(s, <<>>, <<"SERVICE_ACCEPT">>)
 Crash(s) == Die(s, <<>>, <<>>)
 \* A key re-exchange between two authentication messages (KEXINIT ... NEWKEYS, Transport._negotiate_keys /
 \* _parse_newkeys).  The authentication state - pinned user, failure counter - lives in the AuthHandler object,
@@ -225,14 +247,17 @@ Handle(c, s0, q) ==
     IF ~s0.alive THEN Quiet(s0)
     ELSE IF q.k = "rekey" THEN Rekey(s0)
     ELSE IF s0.expect = "tok" /\ WireType(q) = 66 THEN Crash(s0)              \* MessageOrderError / SSHException
+    ELSE IF s0.expect = "tokmic" /\ WireType(q) = 5 THEN Crash(s0)
     ELSE
-      LET s == [s0 EXCEPT !.expect = "any"] IN
+      LET s == [s0 EXCEPT !.expect = "any", !.al = q.allowed] IN      \* al: the list the application offers during this step
       IF s.mode = "gss" THEN
            IF ~c.bound THEN Crash(s)                                          \* table of plain functions: TypeError
            ELSE CASE WireType(q) = 50 -> UserauthRequest(c, [s EXCEPT !.mode = "plain"], q)
+                  [] WireType(q) = 5  -> ServiceRequest([s EXCEPT !.mode = "plain"], q)
                   [] WireType(q) = 61 -> GssToken(s, IF q.k = "gss_token" THEN q.tok ELSE "error")
                   [] OTHER            -> GssMic(s, q)
       ELSE CASE WireType(q) = 50 -> UserauthRequest(c, s, q)
+             [] WireType(q) = 5  -> ServiceRequest(s, q)
              [] WireType(q) = 61 -> InfoResponse(s, q)
              [] OTHER            -> Ans(s, <<>>, <<"UNIMPLEMENTED">>)
 
